@@ -8,6 +8,7 @@ import (
 
 	"verif/sa/internal/ai"
 	"verif/sa/internal/report"
+	"verif/sa/internal/world"
 )
 
 func init() {
@@ -286,6 +287,57 @@ func checkC12(c *Ctx) *report.Result {
 			ta, tb := c.cellInt(a, tm, ".tima"), c.cellInt(b, tm, ".tima")
 			r.Ob("W-window", exactly(ta, s) && exactly(tb, s), "a cancelled reload stays cancelled even if TMA was written some cycles before the overflow", where, fmt.Sprintf("TIMA after cycle A %s, after the next cycle %s; documented: the value written in the 00 cycle", ai.ValueString(ta), ai.ValueString(tb)))
 		}
+	}
+
+	// (6) an overflow in the very cycle in which the previous overflow's reload cycle ends (TMA = FF and a counted edge two
+	// cycles after the first overflow): it is an overflow like any other - interrupt result, TIMA 00, and the next cycle
+	// reloads from TMA
+	{
+		st, _, _ := prep(false)
+		a, _ := step(st) // cycle A of the first overflow: TIMA := TMA
+		ov2, _ := runEdgeFrom(a, edgeCase{1, 1, 1, 0}, ai.NewConstInt(8, false, 0xFF))
+		if a == nil || ov2.Post == nil {
+			r.Fail("undecided", "W-window", "second overflow while the first reload cycle ends", where, "no post-state")
+		} else {
+			cv, isc := constOf(c.cellInt(ov2.Post, tm, ".tima"))
+			irq, ic := boolConst(asBool(ov2.Result))
+			z := doWrite(ov2.Post, wTAC, ai.NewConstInt(8, false, 0)).Fork()
+			tmaS := c.symCell(z, tm, ".tma")
+			z1, _ := step(z)
+			t := c.cellInt(z1, tm, ".tima")
+			r.Ob("W-window", isc && cv == 0 && ic && irq && exactly(t, tmaS), "an overflow in the cycle that ends the previous reload cycle opens its own window", where, fmt.Sprintf("TIMA after that cycle %s (documented 00), interrupt result %v, TIMA one cycle later %s (documented: TMA)", ai.ValueString(c.cellInt(ov2.Post, tm, ".tima")), irq, ai.ValueString(t)))
+		}
+	}
+
+	// ---- W-own: the timer's state belongs to its per-cycle step and its four register handlers
+	r.Rule("W-own", "every cell of the timer is stored only by its per-cycle step and under the DIV / TIMA / TMA / TAC write handlers, over every run-phase entry: no other per-cycle routine clears the write markers or moves the window before the step has looked at them")
+	{
+		allowed := map[string]bool{fnName(endFn): true}
+		for a := 0xFF04; a <= 0xFF07; a++ {
+			for _, f := range c.evalDecoder(true, a, a, nil, nil).Direct {
+				allowed[fnName(f)] = true
+			}
+		}
+		viol := map[string]string{}
+		n := 0
+		c.evalAllEntries(ai.Hooks{
+			Store: func(_ *ai.State, at ssa.Instruction, p *ai.Ptr, keys []ai.CellKey, _ ai.Value, _ bool) {
+				for _, k := range keys {
+					if k.Obj != tm.ID {
+						continue
+					}
+					n++
+					if !c.onStack(allowed) {
+						viol[fmt.Sprintf("%s stores timer cell %s", fnName(outerFn(at.Parent())), k.Path)] = c.pos(at)
+					}
+				}
+			},
+		}, func(*world.Entry, *ai.State) {})
+		for k, pos := range viol {
+			r.Ob("W-own", false, k, pos, "only the timer's per-cycle step and its register write handlers may store timer state (the frame loop runs the memory step before the timer step: a marker cleared there is gone before the timer tests it)")
+		}
+		r.Ob("W-own", n > 0, "stores to timer cells examined over every run-phase entry", "", fmt.Sprintf("%d stores", n))
+		r.Instances["W-own"] += n
 	}
 
 	// ---- W-irq: the interrupt request is wired to the routine's result (rule L3 of C26, evaluated on this tree)
